@@ -40,6 +40,11 @@ VStart(e) ==
           \*  which may be after this call: the incoming file may lag behind, it is never ahead)
           ELSE IF e.incoming > IncSize(H) /\ ~FilesOK(Settled(H), e) THEN V("C44_PersistedLength", H)
           ELSE V("", Join(Cn, H)))
+  \* joint: the helper's look at the grid for this request may have run while the other client's session was still
+  \* pushing shares (it is asynchronous and was started before that session ended): "not there yet, new session" is an
+  \* honest answer then - the file is uploaded a second time, onto shares that are found in place
+  ELSE IF Joint /\ H.mode = "done" /\ e.answer = "session" THEN
+       (IF ~FilesOK(H, e) THEN V("C44_PersistedLength", H) ELSE V("", Start(Cn, H)))
   ELSE IF H.mode = "session" THEN V("C44_Protocol_start_in_session", H)
   ELSE IF ~FilesOK(H, e) THEN V("C44_PersistedLength", H)
   ELSE IF e.answer # StartRes(Cn, H) THEN V("C44_AlreadyPresent", H)
